@@ -278,6 +278,7 @@ pub fn run(args: &Args, rep: &mut Report) {
     let thorough = args.thorough;
     run_cases(args, "C17", chunks, rep, &mut |c, rep| {
         if !mine(args, c) {
+            rep.cases -= 1;
             return;
         }
         let mut n = 0u64;
